@@ -3,6 +3,7 @@
 from __future__ import annotations
 
 import ast
+import re
 
 from .. import spec_xlsform as spec
 from ..astutil import call_name, const_str, guard_texts
@@ -10,6 +11,7 @@ from ..effects import MUTATORS, root_name, writes_in
 from ..interp import GenList, NodeVal, Obj, Raised, Sym, SymStr, explore
 from ..loader import AnalysisError, norm, walk_own
 from ..report import Rule
+from ..rowloop import param_wiring
 from ..xmlmodel import SurveyStub, base_hooks
 from .c04 import _type_context
 from .c19 import _row_loop
@@ -50,8 +52,9 @@ def run(ctx):
     want_inv = {}
     for col, attr in spec.LOGIC_COLUMNS.items():
         want_inv.setdefault(attr, set()).add(col)
-    r1.check(inv == want_inv, "survey_header:bind targets", "the set of columns per bind attribute is exactly the documented one", "pyxform/aliases.py",
-             why_fail=f"diff {{k: inv.get(k) for k in set(inv) ^ set(want_inv)}}")
+    # extra spellings for a bind attribute are additive; a documented column must never be *missing* from its attribute
+    lost = {a: sorted(cols - inv.get(a, set())) for a, cols in want_inv.items() if cols - inv.get(a, set())}
+    r1.check(not lost, "survey_header:bind targets", "every documented column spelling reaches its bind attribute", "pyxform/aliases.py", why_fail=f"missing {lost}")
     rules.append(r1)
 
     # ------------------------------------------------------------------ R2
@@ -125,7 +128,10 @@ def run(ctx):
         r3.check(bc.get(s) == "true()" and yn.get(s) is True, f"truth {s!r}", "-> true() and True", "pyxform/aliases.py", why_fail=f"{bc.get(s)!r}/{yn.get(s)!r}")
     for s in spec.FALSE_SPELLINGS:
         r3.check(bc.get(s) == "false()" and yn.get(s) is False, f"truth {s!r}", "-> false() and False", "pyxform/aliases.py", why_fail=f"{bc.get(s)!r}/{yn.get(s)!r}")
-    r3.check(set(bc) == set(spec.TRUE_SPELLINGS + spec.FALSE_SPELLINGS), "BINDING_CONVERSIONS:keys", "only the documented spellings are converted (an expression such as 'no' + x is left alone)", "pyxform/aliases.py")
+    extra_bc = {k: v for k, v in bc.items() if k not in spec.TRUE_SPELLINGS + spec.FALSE_SPELLINGS}
+    r3.check(all(v in ("true()", "false()") and yn.get(k, v == "true()") is (v == "true()") and re.fullmatch(r"[A-Za-z]+(\(\))?", k or "") for k, v in extra_bc.items()),
+             "BINDING_CONVERSIONS:keys", "any extra converted spelling is a bare truth word with the same polarity in both tables (an expression such as 'no' + x is left alone)",
+             "pyxform/aliases.py", why_fail=f"{extra_bc}")
     r3.check(yn.get("true()") is True and yn.get("false()") is False, "yes_no:xpath booleans", "true()/false() are understood as settings values", "pyxform/aliases.py")
     conv = ctx.consts.get("pyxform.constants", "CONVERTIBLE_BIND_ATTRIBUTES", "C05.R3")
     r3.check(set(conv) == spec.CONVERTIBLE, "CONVERTIBLE_BIND_ATTRIBUTES", f"== {sorted(spec.CONVERTIBLE)}", "pyxform/constants.py", why_fail=f"got {sorted(conv)}")
@@ -186,22 +192,8 @@ def run(ctx):
               necessary="a parameter written under another bind attribute is ignored by clients")
     w2j = ctx.func("pyxform.xls2json:workbook_to_json", "C05.R5")
     loop = _row_loop(w2j)
-    got = {}
-    for c in walk_own(w2j.node):
-        if isinstance(c, ast.Call) and call_name(c) == "update" and isinstance(c.func.value, ast.Subscript) and c.args and isinstance(c.args[0], ast.Dict):
-            oks, sect = const_str(ctx, w2j.module, c.func.value.slice)
-            if not (oks and sect == "bind"):
-                continue
-            for k, v in zip(c.args[0].keys, c.args[0].values):
-                okk, key = const_str(ctx, w2j.module, k)
-                param = None
-                for n in ast.walk(v):
-                    if isinstance(n, ast.Subscript) and isinstance(n.value, ast.Name) and n.value.id == "parameters":
-                        okp, param = const_str(ctx, w2j.module, n.slice)
-                if isinstance(v, ast.Constant) and key == "odk:track-changes-reasons":
-                    param = "track-changes-reasons"
-                if okk and param:
-                    got[(_type_context(c, loop), param)] = key
+    got2, _sites = param_wiring(ctx, [w2j], loop)
+    got = {cp: k for cp, (sct, k) in got2.items() if sct == "bind"}
     for (c, p), (s, k) in sorted(spec.PARAM_WIRING.items()):
         if s == "bind":
             r5.check(got.get((c, p)) == k, f"bind wiring {c}:{p}", f"-> bind/@{k}", w2j.loc(), why_fail=f"got {got.get((c, p))}")
